@@ -7,6 +7,7 @@
  *   K <name>             lou_checkTable(name)
  *   C <table> | <rule>   lou_compileString(table, rule)
  *   T <table> <mode>     lou_translateString(table, "abc", mode)
+ *   B <table> <mode>     lou_backTranslateString(table, "abc", mode)
  * Every case starts from lou_free(), level INFO, default sink.
  * Output: "X n | cb level hextext | ... # filehex"                                      */
 #include "tbl.h"
@@ -100,6 +101,17 @@ main(void) {
 					sp += 2;
 				}
 				lou_translateString(trim(arg), in, &il, out, &ol, NULL, NULL, 0);
+				break;
+			}
+			case 'B': { /* B <table> <mode>: lou_backTranslateString(table, "abc", mode) */
+				char *sp = strrchr(arg, ' ');
+				widechar in[4] = { 'a', 'b', 'c', 0 }, out[64];
+				int il = 3, ol = 64, mode = 0;
+				if (sp) {
+					mode = atoi(sp + 1);
+					*sp = 0;
+				}
+				lou_backTranslateString(trim(arg), in, &il, out, &ol, NULL, NULL, mode);
 				break;
 			}
 			case 'T': {
